@@ -98,6 +98,17 @@ def gen_steps(rng):
             steps.append({"op": "dev", "edit": {"kind": "del_top", "pick": 0}})
             steps.append({"op": "dev", "edit": {"kind": "add_stmt", "pick": rng.randrange(1000), "shape": "bare", "macro": "info"}})
             steps.append({"op": "run", "check": False, "plan": None})
+    if rng.random() < 0.15:
+        # the same project invoked in different ways from run to run (from its directory with a bare or ./ name, from
+        # elsewhere with a relative or an absolute path): the lock belongs to the project, not to a spelling of its path
+        ways = [{"cwd": "proj", "config_arg": "rel"}, {"cwd": "proj", "config_arg": "dotrel"}, {"cwd": "outside", "config_arg": "rel"},
+                {"cwd": "/", "config_arg": "abs"}, {"cwd": "proj", "config_arg": "abs"}, {"cwd": "root", "config_arg": "rel"}]
+        for st in steps:
+            if st["op"] == "run":
+                st["invoke"] = rng.choice(ways)
+        steps.append({"op": "dev", "edit": {"kind": "del_top", "pick": 0}})
+        steps.append({"op": "dev", "edit": {"kind": "add_stmt", "pick": rng.randrange(1000), "shape": "bare", "macro": "info"}})
+        steps.append({"op": "run", "check": False, "plan": None, "invoke": rng.choice(ways)})
     return steps
 
 
@@ -204,6 +215,7 @@ def execute(wm0, knobs, steps, seed, ctx, rng=None):
                 continue
             check = st.get("check", False)
             plan = st.get("plan")
+            knobs_run = dict(knobs, **st["invoke"]) if st.get("invoke") else knobs
             run_seed = st.get("seed") or ((seed + si * 7919) | 1)
             st["seed"] = run_seed
             if plan == "auto-lockread":
@@ -218,7 +230,7 @@ def execute(wm0, knobs, steps, seed, ctx, rng=None):
                 twin_root = root + ".twin"
                 shutil.copytree(root, twin_root, symlinks=True)
                 try:
-                    tres = core.run_breadlog(twin_root, check=check, plan=base_plan(run_seed), knobs=knobs)
+                    tres = core.run_breadlog(twin_root, check=check, plan=base_plan(run_seed), knobs=knobs_run)
                     ctx.count_run(tres)
                 finally:
                     core.rm_root(twin_root)
@@ -235,7 +247,7 @@ def execute(wm0, knobs, steps, seed, ctx, rng=None):
                     st["site"] = ph
                 st["plan"] = plan
             full_plan = plan or base_plan(run_seed)
-            res = core.run_breadlog(root, check=check, plan=full_plan, knobs=knobs)
+            res = core.run_breadlog(root, check=check, plan=full_plan, knobs=knobs_run)
             ctx.count_run(res)
             digest.update(res.trace_digest().encode())
             explicit.append(st)
